@@ -8,7 +8,7 @@ import cli_cfg
 def replay(prop, path, vxname):
     body = json.load(open(path))
     case = body.get("case", {})
-    if "cli_c18_cp" in case or "cli_c18_defaults" in case or "cli_c17_names" in case or "cli_c17_regen" in case or "cli_c17_else" in case or "cli_c17" in case or "cli_c18" in case or "cli_c08" in case or "cli_c08_repeat" in case or "cli_c08_show" in case or "cli_c08_tiny" in case or "cli_c08_latest" in case:
+    if "cli_c18_cp" in case or "cli_c18_slow" in case or "cli_c18_pipe" in case or "cli_c08_big" in case or "cli_c18_defaults" in case or "cli_c17_names" in case or "cli_c17_regen" in case or "cli_c17_else" in case or "cli_c17" in case or "cli_c18" in case or "cli_c08" in case or "cli_c08_repeat" in case or "cli_c08_show" in case or "cli_c08_tiny" in case or "cli_c08_latest" in case:
         defects = cli_cfg.replay_case(prop, case)
     elif "cli_cyc_ckpt" in case:
         n, edges = case["cli_cyc_ckpt"][:2]
@@ -34,7 +34,7 @@ def replay(prop, path, vxname):
         elif prop == "C10":
             defects = [{"sig": "cli:" + s, "detail": d} for s, d in cli_slices.c10_task(case["cli_config"]["targets"])]
         else:
-            r = cli_slices.c01_task(case["cli_config"]["targets"])
+            r = cli_slices.c01_task(case["cli_config"] if case["cli_config"].get("out_dir") else case["cli_config"]["targets"])
             defects = [{"sig": "cli:" + s, "detail": d} for s, d, _ in r["v"]]
     else:
         out = common.replay_vx(vxname, path)
